@@ -47,7 +47,9 @@ class DoomedGen:
         parent, _ = M.split(op['iso'])
         choices = [('version-0', 'AB.C;0'), ('version-32768', 'AB.C;32768'), ('two-semicolons', 'AB;1;1'), ('empty-name-and-extension', '.;1')]
         if lvl < 4:
-            choices += [('lower-case', 'ab.c;1'), ('non-d-character', 'A-B.C;1'), ('space', 'A B.C;1'), ('non-ascii', 'Aé.C;1')]
+            choices += [('lower-case', 'ab.c;1'), ('non-d-character', 'A-B.C;1'), ('space', 'A B.C;1'), ('non-ascii', 'Aé.C;1'),
+                        ('name-ends-in-newline', 'AB\n.C;1'), ('extension-ends-in-newline', 'AB.C\n;1'), ('control-character', 'A\x01B.C;1'),
+                        ('name-starts-with-newline', '\nAB.C;1')]
         if lvl == 1 and m.generation == 0:
             # the interchange level is not recorded on disc: after open() the library infers one, so level-1-only
             # limits are only MUST_REFUSE on the object that was created with interchange_level=1
@@ -67,7 +69,7 @@ class DoomedGen:
         parent, _ = M.split(op['iso'])
         choices = []
         if lvl < 4:
-            choices += [('lower-case', 'abc'), ('non-d-character', 'A.B'), ('dash', 'A-B')]
+            choices += [('lower-case', 'abc'), ('non-d-character', 'A.B'), ('dash', 'A-B'), ('ends-in-newline', 'ABC\n'), ('tab', 'A\tB')]
         if lvl == 1 and m.generation == 0:
             choices += [('level1-9-chars', 'ABCDEFGHI')]
         if lvl in (2, 3):
